@@ -3,12 +3,17 @@
 EXTENDS SubFix
 
 AllFlags == { <<p, o, a, f>> : p \in {0, 1}, o \in {0, 1}, a \in {0, 1}, f \in {0, 1} }
+\* > and + on one directive contradict each other (SkoolKit then inserts an empty instruction): left to c04.py's notes
+SimFlags == { f \in AllFlags : ~(f[1] = 1 /\ f[3] = 1) }
 
 \* SubFix_mc.cfg: exhaustive, small alphabet
 McClasses == <<"ins", "sub", "rem", "begin", "else", "end", "lab", "gap">>
 McFlags == { <<0, 0, 0, 0>>, <<1, 0, 0, 0>>, <<0, 1, 0, 0>>, <<0, 0, 1, 0>>, <<0, 1, 1, 0>>, <<1, 1, 0, 0>> }
 
 \* SubFix_sim.cfg: random files for the real tools; repeats are weights
-SimClasses == <<"ins", "ins", "ins", "ins", "sub", "sub", "sub", "sub", "rem", "begin", "else", "end", "end",
-                "org", "lab", "lab", "keep", "data", "bytes", "if", "gap", "gap">>
+SimClasses == <<"ins", "ins", "ins", "ins", "ins", "sub", "sub", "sub", "rem", "begin", "else", "end", "end",
+                "org", "lab", "lab", "lab", "keep", "data", "bytes", "if", "gap">>
+McFeatures == { {"rem", "begin", "lab", "gap"} }
+Optional == {"rem", "begin", "org", "lab", "keep", "data", "bytes", "if", "gap"}
+SimFeatures == { f \in SUBSET Optional : Cardinality(f) <= 3 /\ Cardinality(f \cap {"keep", "data", "bytes"}) <= 1 }
 =============================================================================
